@@ -24,7 +24,8 @@ ASSUMPTIONS = [
 
 
 def seg_text():
-    alpha = st.one_of(st.sampled_from(GC.NARROW_ASCII), st.sampled_from(GC.NARROW_ASCII + " "), st.sampled_from(["<", ">", "&", '"', "'", "&amp;", "<b>", "1", "2.5", " "]), st.sampled_from(GC.WIDE[:6]), st.just("\n"))
+    alpha = st.one_of(st.sampled_from(GC.NARROW_ASCII), st.sampled_from(GC.NARROW_ASCII + " "), st.sampled_from(["<", ">", "&", '"', "'", "&amp;", "<b>", "1", "2.5", " "]),
+                     st.sampled_from(["{stylesheet}", "{foreground}", "{background}", "{code}", "{", "}", "{{", "}}", "{0}", "%s", "%(code)s", "$code"]), st.sampled_from(GC.WIDE[:6]), st.just("\n"))
     return st.lists(alpha, min_size=0, max_size=10).map("".join)
 
 
@@ -40,10 +41,19 @@ def printable():
     )
 
 
+def print_opts():
+    """Keyword arguments of print() / out(): end, sep, style, soft_wrap, crop, justify."""
+    return st.one_of(st.just({}), st.just({}), st.fixed_dictionaries({}, optional={
+        "end": st.sampled_from(["", "\n\n", " ", "\n", "x\n\ny\n"]), "style": st.sampled_from(GS.PALETTE), "soft_wrap": st.booleans(), "crop": st.booleans(),
+        "justify": st.sampled_from(["left", "center", "right"]), "no_wrap": st.booleans()}))
+
+
 def op_strategy():
     p = printable()
     out_ops = st.one_of(
-        p.map(lambda x: ["print", x]), p.map(lambda x: ["print", x]), p.map(lambda x: ["print", x]),
+        p.map(lambda x: ["print", x]), p.map(lambda x: ["print", x]), st.tuples(p, print_opts()).map(lambda t: ["print", t[0], t[1]]),
+        st.tuples(st.lists(seg_text(), min_size=1, max_size=3), st.fixed_dictionaries({}, optional={"end": st.sampled_from(["", "\n\n", "\n", "a\nb\n\n"]), "sep": st.sampled_from([" ", "\n", ""]),
+                                                                                             "style": st.sampled_from(GS.PALETTE), "highlight": st.booleans()})).map(lambda t: ["out", t[0], t[1]]),
         st.tuples(p, st.integers(0, 3)).map(lambda t: ["log", t[0], t[1]]),
         st.one_of(st.just(""), st.sampled_from(["rule title", "a<b", "漢字"])).map(lambda t: ["rule", t]),
         st.integers(0, 3).map(lambda n: ["line", n]),
@@ -89,10 +99,11 @@ def pre_body(doc):
 class Histories(Part):
     name = "histories"
     rule = ("console config (colour system None/standard/256/truecolor, force_terminal, width 20..120, no_color) x <= 25 ops over print(Text with styles and "
-            "links | markup | plain text with < > & quotes | table | panel), log, rule, line(n), bell/clear/cursor, capture{1-3 prints}, export_text(clear, "
+            "links | markup | plain text with < > & quotes and template-like tokens ({stylesheet}, {{, %s) | table | panel; optionally with end/style/soft_wrap/crop/justify/no_wrap), "
+            "out(strings, sep, end, style), log, rule, line(n), bell/clear/cursor, capture{1-3 prints}, export_text(clear, "
             "styles), export_html(clear, inline_styles); non-trivial = >= 2 prints with different adjacent styles, a control op followed by an unstyled "
             "line, and both a clearing and a non-clearing export")
-    budget = {"quick": (16, 300), "thorough": (16, 5000)}
+    budget = {"quick": (16, 500), "thorough": (16, 6000)}
     chunk = 250
 
     def strategy(self, tier):
@@ -133,9 +144,12 @@ class Histories(Part):
         last_was_ctl = False
         exports = set()
 
-        def emit(c, x, via="print", tick=0):
+        def emit(c, x, via="print", tick=0, opts=None):
             r, kw = make_printable(x)
             if via == "print":
+                kw = dict(kw)
+                for a, b in (opts or {}).items():
+                    kw[a] = GS.build_style(b) if a == "style" else b
                 sut(c.print, r, **kw)
             else:
                 clock["t"] += 0
@@ -148,13 +162,23 @@ class Histories(Part):
             if k in ("print", "log", "rule", "line", "ctl"):
                 pass
             if k == "print":
-                emit(con, op[1])
-                emit(twin, op[1])
+                emit(con, op[1], opts=op[2] if len(op) > 2 else None)
+                emit(twin, op[1], opts=op[2] if len(op) > 2 else None)
+                if len(op) > 2 and op[2]:
+                    ctx.cls("print-with-options")
                 if op[1][0] == "text" and len({GS.spec_view(s) if s else None for _, s in op[1][1]}) >= 2:
                     styled_prints += 1
                 if last_was_ctl and op[1][0] == "plain":
                     ctl_then_plain = True
                 last_was_ctl = False
+            elif k == "out":
+                kw = dict(op[2])
+                if "style" in kw:
+                    kw["style"] = GS.build_style(kw["style"])
+                for c in (con, twin):
+                    sut(c.out, *op[1], **kw)
+                last_was_ctl = False
+                ctx.cls("out")
             elif k == "log":
                 clock["t"] += op[2]
                 emit(con, op[1], "log")
@@ -179,7 +203,7 @@ class Histories(Part):
                     else:
                         sut(c.show_cursor, op[1] == "show_cursor")
                 last_was_ctl = True
-            if k in ("print", "log", "rule", "line", "ctl"):
+            if k in ("print", "log", "rule", "line", "ctl", "out"):
                 # everything written outside a capture block reaches the file at once, exactly as on the twin console
                 a, b = norm_id(f.getvalue()[fpos:]), norm_id(tf.getvalue()[tpos:])
                 if a != b:
